@@ -178,8 +178,8 @@ example :
 
 Vocabulary: `ShuttleProofs/Lemmas/ThreadFine.lean` (`FineStep`/`FineTrace`: the relational semantics of
 `runSegment` that remembers which task a request updates), `ThreadInv.lean` (`HardBlocked`, `isUnblockOf`,
-`iter_*`, `reach_*`), `ThreadLang.lean` (`exitSwitch`, `joinTail`, `scopeExit`, shapes of `threadFn` /
-`IR.scopedBody` / `scopeClose`).
+`iter_*`, `reach_*`), `ThreadLang.lean` (`exitSwitch`, `joinTail`, `scopeExit`, `afterScopeExit`, `withMainWaiting`,
+shapes of `threadFn` / `IR.scopedBody` / `scopeClose`).
 
 Not modelled, hence not covered: the *value* a closure returns and `JoinHandle::join` hands back (the model's
 bodies are `Prog U Unit`; in Rust the value travels through `result: Arc<Mutex<Option<Result<T>>>>`, written by
@@ -237,8 +237,10 @@ example : ∃ ir : IR, ir.objs.length = 1 ∧ (ir.tasks.length = 2) :=
     any task) and no scheduler decision resumes it;
 (c) the tail of the target's `thread_fn` is such a request, for exactly the registered joiner
     (`thread_fn_order`), and it comes after the destructor loop.
-What is **not** claimed (and false, F10): that no *other* code issues `unblock(j)` while `j` waits in `join` —
-the last scoped thread of a `thread::scope` does, see `scope_unblock_is_unconditional_witness`. -/
+What is **not** claimed here: that no *other* code issues `unblock(j)` while `j` waits in `join`.  In the pinned
+tree the last scoped thread of a `thread::scope` did (F10, repaired in /repo 9ec3e7a); for the repaired code see
+`scope_unblock_only_when_waiting`: a scoped thread's exit issues `unblock(main)` only when `main` has blocked at
+the end of the scope. -/
 theorem join_returns_only_when_finished :
     (∀ (tk tk' : Task) (w : Nat) (b : Bool), tk.setWaiter w = .ok (b, tk') →
       (b = false → tk.finished = true ∧ tk' = tk) ∧
@@ -415,16 +417,27 @@ open ShuttleProofs.Kernel ShuttleProofs.Thread
 
 variable {σ : Type}
 
-/-- **scope_waits_for_all** — as far as it is true.
+/-- **scope_waits_for_all.**
 (a) A scoped thread is `thread_fn(wrapper, switch_before_exit = false)` where the wrapper runs the thread's
     closure, its own pre-exit switch and then `scopeExit`; the thread's thread-local destructors and the
     wake-up of its joiner come *after* `scopeExit` (in `thread_fn`).  So what `scope` waits for is the return of
     every scoped *closure* — not the end of the scoped threads: their TLS destructors may still run, and the
-    tasks are not yet `Finished`, when `scope` returns (the same holds for the Rust code, thread.rs:88-105).
-(b) At the end of the scope the main task goes on at once when the counter is 0, and otherwise blocks itself
-    with `block(false)` and switches — by `join_returns_only_when_finished` (b) it then stays blocked until some
-    segment issues `unblock(main)`.
-(c) `scopeExit` decrements the counter and, unless it read 1 (last running thread), changes no task. -/
+    tasks are not yet `Finished`, when `scope` returns (the same holds for the Rust code, thread.rs:88-109).
+(b) At the end of the scope the main task goes on at once — heap untouched, no flag set — when the counter is 0;
+    otherwise, in one segment, it sets the scope's `mainWaiting` flag, blocks itself with `block(false)` and
+    switches — by `join_returns_only_when_finished` (b) it then stays blocked until some segment issues
+    `unblock(main)`.
+(c) `scopeExit` decrements the counter and changes no task (the kernel is left exactly as it was) unless it read
+    the counter at 1 (last running thread) **and** found the flag set.  (Stronger than before the repair of F10,
+    where only "unless it read 1" held: a thread that is the last one to exit while the main task is still inside
+    the scope closure now changes no task either.)
+(d) `scopeExit` writes nothing but its scope's counter: every scope keeps its `mainWaiting` flag and its
+    `mainTask`, and every other scope its counter.  Hence a scoped thread that exits while the flag is unset
+    leaves it unset, and with (b): the main task blocked at the end of the scope is woken by the thread that
+    takes the counter from 1 to 0, not by an earlier one.
+Not proven as a theorem (it is a fact about all of `execOp`, some 300 lines of harness operations): that no
+*other* harness operation writes a scope's counter or flag; in Lang.lean the counter is written by `scope_spawn`
+(+1) and `scopeExit` (−1) only and the flag by `scopeClose` only. -/
 theorem scope_waits_for_all (ir : IR) :
     (∀ k sid, ir.scopedBody k sid =
       threadFn ir k (do
@@ -437,54 +450,140 @@ theorem scope_waits_for_all (ir : IR) :
       (((st.u.scopes[sid]?).getD {}).running = 0 →
         runSegment S me (fuel + 1) st (Prog.bind (scopeClose sid) kont) = runSegment S me fuel st (kont ())) ∧
       (((st.u.scopes[sid]?).getD {}).running ≠ 0 →
-        runSegment S me (fuel + 3) st (Prog.bind (scopeClose sid) kont) =
+        runSegment S me (fuel + 4) st (Prog.bind (scopeClose sid) kont) =
           match st.k.modTask me (·.block false) with
-          | .ok k' => .atSwitch { st with k := k', conts := st.conts.set me (kont ()) }
-          | .error e => .panicked e st)) ∧
+          | .ok k' => .atSwitch { st with u := withMainWaiting st.u sid, k := k',
+                                          conts := st.conts.set me (kont ()) }
+          | .error e => .panicked e { st with u := withMainWaiting st.u sid })) ∧
     (∀ (S : Scheduler σ) (me fuel : Nat) (st : ExecState ir.program σ) (sid : Nat)
         (kont : Unit → ShuttleModel.P Unit),
-      ((st.u.scopes[sid]?).getD {}).running ≠ 1 →
+      (((st.u.scopes[sid]?).getD {}).running ≠ 1 ∨ ((st.u.scopes[sid]?).getD {}).mainWaiting = false) →
         runSegment S me (fuel + 2) st (Prog.bind (scopeExit sid) kont) =
-          runSegment S me fuel { st with u := afterScopeExit st.u sid } (kont ())) :=
+          runSegment S me fuel { st with u := afterScopeExit st.u sid } (kont ())) ∧
+    (∀ (h : Heap) (sid : Nat),
+      (afterScopeExit h sid).scopes.length = h.scopes.length ∧
+      (∀ s : Nat, ((afterScopeExit h sid).scopes[s]?).map ScopeState.mainWaiting =
+        (h.scopes[s]?).map ScopeState.mainWaiting) ∧
+      (∀ s : Nat, ((afterScopeExit h sid).scopes[s]?).map ScopeState.mainTask =
+        (h.scopes[s]?).map ScopeState.mainTask) ∧
+      (∀ s : Nat, s ≠ sid → (afterScopeExit h sid).scopes[s]? = h.scopes[s]?) ∧
+      ((afterScopeExit h sid).scopes[sid]?).map ScopeState.running =
+        (h.scopes[sid]?).map (fun sc => sc.running - 1)) :=
   ⟨scopedBody_eq ir,
    fun S me fuel st sid kont =>
      runSegment_scopeClose (i := ir.initHeap) (b := ir.bodiesA) (u := ir.unwind) S me fuel st sid kont,
    fun S me fuel st sid kont =>
-     (runSegment_scopeExit (i := ir.initHeap) (b := ir.bodiesA) (u := ir.unwind) S me fuel st sid kont).1⟩
+     (runSegment_scopeExit (i := ir.initHeap) (b := ir.bodiesA) (u := ir.unwind) S me fuel st sid kont).1,
+   fun h sid =>
+     have := afterScopeExit_spec h sid
+     ⟨this.1, this.2.1, this.2.2.1, this.2.2.2.1, this.2.2.2.2.1⟩⟩
 
-example : (afterScopeExit { scopes := [{ running := 2, mainTask := 0 }] } 0).scopes.map (·.running) = [1] := by
+example : (afterScopeExit { scopes := [{ running := 2, mainTask := 0, mainWaiting := true }] } 0).scopes.map
+    (fun sc => (sc.running, sc.mainWaiting)) = [(1, true)] := by
   decide
 
-/-- **scope_unblock_is_unconditional_witness (known defect F10, not hidden).**
-(a) In the model as in thread.rs:99-101, the scoped thread that reads the counter at 1 applies `unblock()` to
-    the scope's main task *whatever that task is blocked on*: for every kernel state in which the main task
-    `m` is not `Finished` — in particular `HardBlocked` in a `recv`, `Condvar::wait` or `join` it entered inside
-    the scope closure, with the counter having dropped to 1 while the closure is still running — `scopeExit`
-    continues with `m` runnable.  There is no premise saying that `m` waits at the end of the scope.
-(b) A concrete execution: in `exF10` the main task blocks inside the scope closure on something that never
-    happens; a correct runtime reports the deadlock (that is what the same program without the scoped thread's
-    `unblock` gives, `exDeadlock`), but the execution ends `ok` with main having run past its blocking point.
-    The full-stack witness is /verif/corpus/C07/f10_scope_unblock_blocked_sender.vp. -/
-theorem scope_unblock_is_unconditional_witness (ir : IR) :
+/-- non-vacuity of (b)/(c), both orders of the regular end of a scope (`exScopeEnd`: real `scopeClose` and
+`scopeExit`).  `firstSched`: main blocks at the end of the scope first (flag set), the scoped thread's exit then
+unblocks it.  `lastSched`: the scoped thread exits first (counter 1, flag unset: no unblock), main then reads the
+counter at 0 and neither sets the flag nor blocks.  Both end `ok` with main past the scope. -/
+example :
+    (execute exScopeEnd firstSched .none 0 () 20 20).outcome = .ok ∧
+    Ev.obs "scope returned" ∈ (execute exScopeEnd firstSched .none 0 () 20 20).st.log.toList ∧
+    (execute exScopeEnd firstSched .none 0 () 20 20).st.u.scopes.map (fun sc => (sc.running, sc.mainWaiting))
+      = [(0, true)] ∧
+    (execute exScopeEnd lastSched .none 0 () 20 20).outcome = .ok ∧
+    Ev.obs "scope returned" ∈ (execute exScopeEnd lastSched .none 0 () 20 20).st.log.toList ∧
+    (execute exScopeEnd lastSched .none 0 () 20 20).st.u.scopes.map (fun sc => (sc.running, sc.mainWaiting))
+      = [(0, false)] := by decide
+
+/-- **scope_unblock_only_when_waiting.**
+History: in the pinned tree the scoped thread that read the counter at 1 applied `unblock()` to the scope's main
+task *unconditionally* (thread.rs:99-101), so a main task blocked in a `recv` / `Condvar::wait` / `join` inside
+the scope closure was woken with nothing to receive — defect F10, formerly recorded here as
+`scope_unblock_is_unconditional_witness`; repaired in /repo 9ec3e7a (`Scope::main_task_waiting`).  For the
+repaired code:
+(a) *iff.*  A scoped thread's exit code (`scopeExit`) issues `unblock(main_task)` exactly when it read the counter
+    at 1 (it is the last running scoped thread) **and** the scope's `mainWaiting` flag is set: in that case it
+    continues with the (unfinished) main task runnable; in every other case — in particular whenever the flag is
+    unset, whatever the counter — it continues with the kernel, i.e. every task's state, exactly as it was.
+(b) *who sets the flag.*  `scopeExit` leaves every scope's flag as it found it (`scope_waits_for_all` (d)); a new
+    `ScopeState` starts with the flag unset; `scopeClose` leaves the heap untouched when the counter is 0, and
+    otherwise sets the flag of *its* scope only and, in the same segment — no other task runs in between —, takes
+    its own task to `Blocked(false)` and stops at a scheduling point.  So the flag of scope `sid` is set only from
+    the moment its main task blocks at the end of `scope`.
+(c) Hence a main task that is blocked in some other operation inside the scope closure (its `scopeClose` has not
+    run: flag unset) is not touched by any scoped thread's exit.  Concretely (`exF10`, the former F10 witness,
+    now over the real `scopeExit`): main blocks inside the closure on something that never happens while the
+    last scoped thread exits; under both schedulers the execution is reported as a deadlock with main blocked —
+    the verdict of the same program without any scoped-thread exit code (`exDeadlock`) —, main never runs past
+    its blocking point, and the flag is still unset at the end.
+(As in `scope_waits_for_all`, that no other harness operation writes the flag is read off Lang.lean, not proven
+over `execOp`.)  The full-stack check of this scenario is /verif/corpus/C07/f10_scope_unblock_blocked_sender.vp. -/
+theorem scope_unblock_only_when_waiting (ir : IR) :
     (∀ (S : Scheduler σ) (me fuel : Nat) (st : ExecState ir.program σ) (sid : Nat)
-        (kont : Unit → ShuttleModel.P Unit) (tm : Task),
-      ((st.u.scopes[sid]?).getD {}).running = 1 →
-      st.k.tasks[((st.u.scopes[sid]?).getD {}).mainTask]? = some tm → tm.finished = false →
-      runSegment S me (fuel + 3) st (Prog.bind (scopeExit sid) kont) =
-        runSegment S me fuel
-          { st with u := afterScopeExit st.u sid,
-                    k := st.k.setTask ((st.u.scopes[sid]?).getD {}).mainTask
-                      { tm with state := .runnable, blockedInPark := false } } (kont ())) ∧
-    ((execute exF10 firstSched .none 0 () 20 20).outcome = .ok ∧
-     Ev.obs "main resumed although nothing it waited for happened" ∈
+        (kont : Unit → ShuttleModel.P Unit),
+      ((((st.u.scopes[sid]?).getD {}).running ≠ 1 ∨ ((st.u.scopes[sid]?).getD {}).mainWaiting = false) →
+        runSegment S me (fuel + 2) st (Prog.bind (scopeExit sid) kont) =
+          runSegment S me fuel { st with u := afterScopeExit st.u sid } (kont ())) ∧
+      (∀ tm : Task, ((st.u.scopes[sid]?).getD {}).running = 1 → ((st.u.scopes[sid]?).getD {}).mainWaiting = true →
+        st.k.tasks[((st.u.scopes[sid]?).getD {}).mainTask]? = some tm → tm.finished = false →
+        runSegment S me (fuel + 3) st (Prog.bind (scopeExit sid) kont) =
+          runSegment S me fuel
+            { st with u := afterScopeExit st.u sid,
+                      k := st.k.setTask ((st.u.scopes[sid]?).getD {}).mainTask
+                        { tm with state := .runnable, blockedInPark := false } } (kont ()))) ∧
+    ((∀ (h : Heap) (sid s : Nat), ((afterScopeExit h sid).scopes[s]?).map ScopeState.mainWaiting =
+        (h.scopes[s]?).map ScopeState.mainWaiting) ∧
+     (∀ r m : Nat, ({ running := r, mainTask := m } : ScopeState).mainWaiting = false) ∧
+     (∀ (S : Scheduler σ) (me fuel : Nat) (st : ExecState ir.program σ) (sid : Nat)
+        (kont : Unit → ShuttleModel.P Unit),
+      (((st.u.scopes[sid]?).getD {}).running = 0 →
+        runSegment S me (fuel + 1) st (Prog.bind (scopeClose sid) kont) = runSegment S me fuel st (kont ())) ∧
+      (∀ tm : Task, ((st.u.scopes[sid]?).getD {}).running ≠ 0 → st.k.tasks[me]? = some tm → tm.finished = false →
+        runSegment S me (fuel + 4) st (Prog.bind (scopeClose sid) kont) =
+          .atSwitch { st with u := withMainWaiting st.u sid,
+                              k := st.k.setTask me { tm with state := .blocked false },
+                              conts := st.conts.set me (kont ()) })) ∧
+     (∀ (h : Heap) (sid : Nat),
+      (∀ s : Nat, s ≠ sid → (withMainWaiting h sid).scopes[s]? = h.scopes[s]?) ∧
+      (∀ sc, h.scopes[sid]? = some sc →
+        (withMainWaiting h sid).scopes[sid]? = some { sc with mainWaiting := true }))) ∧
+    ((execute exF10 firstSched .none 0 () 20 20).outcome = .deadlock [(0, false, false)] ∧
+     (execute exF10 lastSched .none 0 () 20 20).outcome = .deadlock [(0, false, false)] ∧
+     Ev.obs "main resumed although nothing it waited for happened" ∉
        (execute exF10 firstSched .none 0 () 20 20).st.log.toList ∧
+     (execute exF10 firstSched .none 0 () 20 20).st.u.scopes.map (fun sc => (sc.running, sc.mainWaiting))
+       = [(0, false)] ∧
      (execute exDeadlock firstSched .none 0 () 20 20).outcome = .deadlock [(0, false, false)]) := by
-  refine ⟨?_, by decide⟩
-  intro S me fuel st sid kont tm hr hm hf
-  have h := (runSegment_scopeExit (i := ir.initHeap) (b := ir.bodiesA) (u := ir.unwind) S me fuel st sid kont).2 hr
-  refine Eq.trans h ?_
-  simp [Kernel.modTask, Kernel.getTask?, hm, Task.unblock, hf]
-  rfl
+  refine ⟨?_, ⟨fun h sid s => (afterScopeExit_spec h sid).2.1 s, fun _ _ => rfl, ?_, ?_⟩, by decide⟩
+  · intro S me fuel st sid kont
+    have hx := runSegment_scopeExit (i := ir.initHeap) (b := ir.bodiesA) (u := ir.unwind) S me fuel st sid kont
+    refine ⟨hx.1, ?_⟩
+    intro tm hr hw hm hf
+    refine Eq.trans (hx.2 ⟨hr, hw⟩) ?_
+    simp [Kernel.modTask, Kernel.getTask?, hm, Task.unblock, hf]
+    rfl
+  · intro S me fuel st sid kont
+    have hx := runSegment_scopeClose (i := ir.initHeap) (b := ir.bodiesA) (u := ir.unwind) S me fuel st sid kont
+    refine ⟨hx.1, ?_⟩
+    intro tm hr hm hf
+    refine Eq.trans (hx.2 hr) ?_
+    simp [Kernel.modTask, Kernel.getTask?, hm, Task.block, hf]
+    rfl
+  · intro h sid
+    have := withMainWaiting_spec h sid
+    exact ⟨this.2.1, this.2.2.1⟩
+
+/-- non-vacuity: a heap satisfying the premise of (a), first case (counter 1, flag unset — the heap `exF10` starts
+from); after `withMainWaiting` it satisfies the premise of the second case (that is the state in which the scoped
+thread of `exScopeEnd` exits under `firstSched`, where the main task is then unblocked and the execution ends
+`ok`, see above) -/
+example : ∃ h : Heap,
+    ((h.scopes[0]?).getD ({} : ScopeState)).running = 1 ∧ ((h.scopes[0]?).getD ({} : ScopeState)).mainWaiting = false ∧
+    (((withMainWaiting h 0).scopes[0]?).getD ({} : ScopeState)).running = 1 ∧
+    (((withMainWaiting h 0).scopes[0]?).getD ({} : ScopeState)).mainWaiting = true ∧
+    (((afterScopeExit (withMainWaiting h 0) 0).scopes[0]?).getD ({} : ScopeState)).running = 0 :=
+  ⟨{ scopes := [{ running := 1, mainTask := 0 }] }, rfl, rfl, rfl, rfl, rfl⟩
 
 end scope
 
